@@ -374,6 +374,8 @@ pub trait ClientFolderStorage:
             // Must truncate the event log so that importing vaults
             // does not end up with multiple create vault events
             folder.clear().await?;
+            #[cfg(sos_verif)]
+            sos_core::verif::probe("storage::create_folder_entry::log_cleared");
             folder.apply_records(records).await?;
         }
 
@@ -441,6 +443,8 @@ pub trait ClientFolderStorage:
         self.guard_authenticated(Internal)?;
 
         let buffer = self.write_vault(vault, Internal).await?;
+        #[cfg(sos_verif)]
+        sos_core::verif::probe("storage::update_vault::vault_written");
 
         // Apply events to the event log
         let folder = self
@@ -448,6 +452,8 @@ pub trait ClientFolderStorage:
             .get_mut(vault.id())
             .ok_or(StorageError::FolderNotFound(*vault.id()))?;
         folder.clear().await?;
+        #[cfg(sos_verif)]
+        sos_core::verif::probe("storage::update_vault::log_cleared");
         folder.apply(events.as_slice()).await?;
 
         Ok(buffer)
@@ -574,9 +580,13 @@ pub trait ClientFolderStorage:
             compact_folder(self.account_id(), folder_id, &mut log_file)
                 .await?;
         }
+        #[cfg(sos_verif)]
+        sos_core::verif::probe("storage::compact_folder::log_compacted");
 
         // Refresh in-memory vault and mirrored copy
         let buffer = self.refresh_vault(folder_id, key, Internal).await?;
+        #[cfg(sos_verif)]
+        sos_core::verif::probe("storage::compact_folder::vault_refreshed");
 
         let account_event = AccountEvent::CompactFolder(*folder_id, buffer);
 
@@ -945,12 +955,16 @@ pub trait ClientAccountStorage:
                 .await?;
 
         let buffer = self.update_vault(&new_vault, event_log_events).await?;
+        #[cfg(sos_verif)]
+        sos_core::verif::probe("storage::change_password::vault_and_log_rewritten");
 
         let account_event =
             AccountEvent::ChangeFolderPassword(*folder_id, buffer);
 
         // Refresh the in-memory and disc-based mirror
         self.refresh_vault(vault.id(), &new_key, Internal).await?;
+        #[cfg(sos_verif)]
+        sos_core::verif::probe("storage::change_password::vault_refreshed");
 
         if let Some(folder) = self.folders_mut().get_mut(vault.id()) {
             let access_point = folder.access_point();
@@ -963,6 +977,8 @@ pub trait ClientAccountStorage:
             .ok_or_else(|| AuthenticationError::NotAuthenticated)?
             .save_folder_password(folder_id, new_key)
             .await?;
+        #[cfg(sos_verif)]
+        sos_core::verif::probe("storage::change_password::password_saved");
 
         let account_log = self.account_log().await?;
         let mut account_log = account_log.write().await;
@@ -1207,6 +1223,8 @@ pub trait ClientAccountStorage:
             .await?;
 
         // Must save the folder access key
+        #[cfg(sos_verif)]
+        sos_core::verif::probe("storage::create_folder::account_event_written");
         self.authenticated_user_mut()
             .ok_or_else(|| AuthenticationError::NotAuthenticated)?
             .save_folder_password(summary.id(), key.clone())
@@ -1232,6 +1250,8 @@ pub trait ClientAccountStorage:
 
         // Remove the files
         self.remove_vault(folder_id, Internal).await?;
+        #[cfg(sos_verif)]
+        sos_core::verif::probe("storage::delete_folder::files_removed");
 
         // Remove local state
         self.remove_folder_entry(folder_id, Internal)?;
@@ -1264,6 +1284,8 @@ pub trait ClientAccountStorage:
             .ok_or_else(|| AuthenticationError::NotAuthenticated)?
             .remove_folder_password(folder_id)
             .await?;
+        #[cfg(sos_verif)]
+        sos_core::verif::probe("storage::delete_folder::password_removed");
 
         let account_event = AccountEvent::DeleteFolder(*folder_id);
 
